@@ -20,16 +20,29 @@ META = {
             "facts are independent and drawn once, printed probability = probability of the sample for every adaptive "
             "encounter strategy, rejection = conditioning. Tie: real sample() with random.random replaced by a scripted "
             "sequence; every add_atom call (result, draws consumed, self.probability, self.groups) must equal the model's."
-            " C22_printed_probability now holds without side condition: well-formed tables make every reachable sampler state `ok` (remaining-mass invariant).",
-    "note": "PARTIAL: 'frequencies converge as the number of samples grows' (law of large numbers) is NOT formalised; "
-            "it is only tested (fixed seed, Hoeffding bound, false-alarm probability < 1e-9 per run) and labelled as a test. "
+            " C22_printed_probability now holds without side condition: well-formed tables make every reachable sampler state `ok` (remaining-mass invariant)."
+            " Convergence: WEAK law of large numbers proved for the model over Q, no axioms (ModelLLN.v/ProofsLLN.v): n independent samples = "
+            "n-fold product `prodn` of the one-sample distribution (total mass 1, coordinate-wise events multiply); E[frequency] = P(q), "
+            "Var = P(q)(1-P(q))/n; Chebyshev P(|frequency - P(q)| >= eps) <= P(q)(1-P(q))/(n eps^2) <= 1/(4 n eps^2) (C22_chebyshev); for every "
+            "delta > 0 an explicit N = floor(1/(4 eps^2 delta)) + 1 with deviation probability < delta for all n >= N (C22_weak_lln, "
+            "C22_weak_lln_explicit_N); instantiated with the accepted-sample distribution `cond d e` of the rejection loop for every adaptive "
+            "strategy: the estimate of q from n accepted samples deviates from P(q|e) by >= eps with probability <= 1/(4 n eps^2) "
+            "(C22_estimate_converges, C22_estimate_converges_delta; bounded number of attempts per sample: C22_bounded_attempts_product). "
+            "Tie: a scripted run of the real estimate() must return exactly freq (model) of the accepted samples' query values.",
+    "note": "PARTIAL: 'frequencies converge as the number of samples grows' is proved as a WEAK law (convergence in probability, with the "
+            "explicit Chebyshev rate) for the MODEL: i.i.d. repetition of the one-sample distribution. Independence of the real sampler's "
+            "attempts (fresh SampledFormula per attempt - checked by the tie: every attempt replays from `init` - and independent PRNG draws) "
+            "is the modelling assumption. ALMOST-SURE convergence (strong law; needs a measure on infinite sequences) is NOT formalised, "
+            "nor is the exponential Hoeffding bound 2 exp(-2 n eps^2) that the frequency TEST uses (fixed seed, false-alarm probability "
+            "< 1e-9 per run, labelled as a test); the proved bound a test may use is C22_test_bound: false alarm <= delta whenever "
+            "1 <= 4 n eps^2 delta. "
             "Continuous distributions (sample_value) and the engine's choice of which atoms to ask are out of the model: the "
             "encounter order is taken from the observed run and the theorems quantify over all orders/strategies. "
             "Trusted: Lebesgue measure of an interval = its length; CPython float arithmetic within 1e-9 of Q.",
 }
 
 HEADER = """From Coq Require Import QArith NArith List Bool.
-From PL.C22 Require Import ModelSampler.
+From PL.C22 Require Import ModelSampler ModelLLN.
 Import ListNotations.
 Open Scope Q_scope.
 """
@@ -288,6 +301,82 @@ def scripted_attempts(src, us, n=2, propagate=False, with_facts=True):
     return attempts, err, rnd.other
 
 
+def scripted_estimate(src, us, n=3):
+    """Runs the real estimate() with random.random scripted.  Returns (estimates, samples, error): samples = per accepted
+    attempt (in order) the dict query -> bool read from that attempt's own SampledFormula; None when the script ran out."""
+    from problog.tasks import sample as S
+    from problog.program import PrologString
+    rnd = ScriptedRandom(us)
+    Base = S.SampledFormula
+    insts = []
+
+    class Logged(Base):
+        def __init__(self, **kw):
+            Base.__init__(self, **kw)
+            self._accepted = None
+            insts.append(self)
+
+    orig_verify = S.verify_evidence
+
+    def verify(engine, db, ev_target, target):
+        r = orig_verify(engine, db, ev_target, target)
+        target._accepted = bool(r)
+        return r
+
+    saved = (S.random, S.SampledFormula, S.verify_evidence)
+    S.random, S.SampledFormula, S.verify_evidence = rnd, Logged, verify
+    est, err = None, None
+    try:
+        with contextlib.redirect_stdout(io.StringIO()):
+            est = S.estimate(PrologString(src), n=n)
+    except ScriptEnd:
+        return None, None, None, rnd.other
+    except Exception as e:  # noqa
+        err = e
+    finally:
+        S.random, S.SampledFormula, S.verify_evidence = saved
+    samples = [{str(k): (v == 0) for k, v in i.queries()} for i in insts if i._accepted]
+    return (None if est is None else {str(k): v for k, v in est.items()}), samples, err, rnd.other
+
+
+def run_estimate_tie(ctx, jobs, cases, metas):
+    """estimate() = empirical frequency (ModelLLN.freq) of the query among the accepted samples."""
+    for prog, us in jobs:
+        n = 3
+        try:
+            est, samples, err, other = pl.with_timeout(scripted_estimate, 60, prog["text"], us, n)
+        except BaseException as e:  # noqa
+            if isinstance(e, (KeyboardInterrupt, SystemExit)):
+                raise
+            est, samples, err, other = None, None, e, []
+        if other:
+            ctx.broken.append("correspondence:sample.py estimate() used random.%s (not modelled) on %r" % (other[0], prog["text"]))
+        if err is not None:
+            ctx.violation("estimate() raised %r" % (err,), {"program": prog["text"], "script": [str(u) for u in us],
+                                                            "mode": "estimate"}, klass=None)
+            continue
+        if est is None:
+            ctx.count("estimate_script_exhausted")
+            continue
+        ctx.count("estimate_runs")
+        if len(samples) != n:
+            ctx.violation("estimate(n=%d) used %d accepted samples on %r" % (n, len(samples), prog["text"]),
+                          {"program": prog["text"], "script": [str(u) for u in us], "mode": "estimate"}, klass=None)
+            continue
+        for q in prog["queries"]:
+            vals = [bool(smp.get(q, False)) for smp in samples]
+            obs = est.get(q, 0.0)
+            ctx.case(("estimate", prog["text"], tuple(str(u) for u in us), q), 0 < sum(vals) < n, sample=None)
+            if abs(Fraction(sum(vals), n) - Fraction(obs)) > Fraction(1, 10 ** 12):
+                ctx.violation("estimate() returns %r for %s, the frequency among its %d accepted samples is %d/%d: %r"
+                              % (obs, q, n, sum(vals), n, prog["text"]),
+                              {"program": prog["text"], "script": [str(u) for u in us], "mode": "estimate", "query": q},
+                              klass=None)
+            cases.append("close (freq (fun b : bool => b) %s) %s (1 # 1000000000)"
+                         % (vf.coq_list([vf.coq_bool(v) for v in vals]), coq_Q(fq(obs))))
+            metas.append(("ModelLLN.freq vs estimate() for %s" % q, prog["text"], [str(u) for u in us]))
+
+
 def gen_script(rng, prog, length=24):
     us = []
     for _ in range(length):
@@ -529,18 +618,22 @@ def run_scripted(ctx):
                               {"program": prog["text"], "draws": [str(u) for u in att["draws"]], "complaints": bad},
                               klass=None)
             cases.append(encode_attempt(att))
-            metas.append((prog["text"], [str(u) for u in att["draws"]]))
-    ctx.log("scripted runs done: %d attempts" % len(cases))
+            metas.append(("ModelSampler.run vs SampledFormula.add_atom", prog["text"], [str(u) for u in att["draws"]]))
+    nattempts = len(cases)
+    est_jobs = [(prog, us * 6) for prog, us, nsam in jobs[:ctx.n(30, 400)] if nsam == 2 and prog["queries"]]
+    run_estimate_tie(ctx, est_jobs, cases, metas)
+    ctx.cov["estimate_tie_cases"] = len(cases) - nattempts
+    ctx.log("scripted runs done: %d attempts, %d estimate comparisons" % (nattempts, len(cases) - nattempts))
     try:
         bad = ctx.coq_failing(HEADER, cases, name="sampler", shard=100)
     except RuntimeError as e:
         ctx.broken.append("correspondence:sampler model does not evaluate")
         ctx.notes.append(str(e))
         return
-    ctx.cov["scripted_attempts"] = len(cases)
+    ctx.cov["scripted_attempts"] = nattempts
     ctx.cov["scripted_model_vs_impl_agree"] = len(cases) - len(bad)
     for i in bad[:5]:
-        ctx.broken.append("correspondence:ModelSampler.run vs SampledFormula.add_atom on program %r draws %r" % metas[i])
+        ctx.broken.append("correspondence:%s on program %r draws %r" % metas[i])
 
 
 # ------------------------------------------------------------------ cut-off probe (documented deviation, not a violation)
@@ -718,6 +811,9 @@ def run_statistics(ctx):
     t = math.sqrt(math.log(2.0 / delta) / (2.0 * nsamp))
     ctx.cov["statistical_test"] = {"label": "TEST (support only, not proof)", "samples_per_program": nsamp,
                                    "comparisons": ncmp, "hoeffding_t": t, "false_alarm_per_run": "< 1e-9",
+                                   "proved_chebyshev_false_alarm_per_comparison_at_t": min(1.0, 1.0 / (4.0 * nsamp * t * t)),
+                                   "proved_bound": "C22_test_bound: P(|frequency - p| >= eps) <= delta whenever 1 <= 4 n eps^2 delta "
+                                                   "(Hoeffding, used for the threshold, is classical but not formalised)",
                                    "jobs": len(items)}
     for item, res in zip(items, results):
         src, n, mode, seed = item
@@ -760,7 +856,9 @@ def run(ctx):
     ctx.assumptions += ["the engine's choice of which atoms it asks (encounter strategy) is not modelled: taken from the observed run; "
                         "the theorems quantify over all strategies",
                         "float arithmetic of CPython stays within 1e-9 of the exact rationals on the generated programs",
-                        "law of large numbers not formalised: convergence of frequencies is only tested (Hoeffding, fixed seed)",
+                        "weak law of large numbers proved for the model (i.i.d. product of the one-sample distribution, Chebyshev rate); "
+                        "independence of the real PRNG's draws across attempts is assumed; almost-sure convergence and the Hoeffding bound of "
+                        "the frequency test are not formalised (the test stays a TEST, fixed seed)",
                         "Lebesgue measure of an interval of [0,1) equals its length"]
     ctx.prove("C22/Props.v")
     if ctx.replay:
